@@ -232,7 +232,8 @@ HARNESSES = [
       fns=['transcode::stream::Visitor::visit_*', 'transcode::stream::Visitor::forward_scalar'], timeout=300, min_covers=3),
     H('U-TX', 'stream', 'tx_transcode_maps_v_contract_to_error', 'complete', ['C11', 'C12'], bounds='every outcome of an abstract top-level document satisfying the subtree contract',
       fns=['transcode::stream::transcode', 'transcode::stream::State::error_source', 'transcode::stream::State::into_error'], timeout=300, min_covers=3),
-    H('U-TX', 'stream', 'tx_error_attribution_depth2', 'bounded', ['C11', 'C12', 'C01'], tier='thorough', bounds='mock nesting depth 2 (collections in element, key and value position)',
+    # (not run any more: 32 GB / 14 min and killed when anything else runs beside it; superseded by tx_depth_induction_step, which covers every depth)
+    H('U-TX', 'stream', 'tx_error_attribution_depth2', 'bounded', ['C11', 'C12', 'C01'], tier='never', bounds='mock nesting depth 2 (collections in element, key and value position)',
       fns=['transcode::stream::transcode'], timeout=3600, min_covers=3),
     H('U-TX', 'stream', 'tx_json_e2e_seq', 'bounded', ['C01', 'C06', 'C03'], bounds='document [bool, null]; REAL serde_json serializer behind the REAL transcoder',
       fns=['transcode::stream::transcode', 'transcode::stream::Visitor::visit_seq', 'transcode::stream::Visitor::visit_map', 'transcode::stream::Forwarder::serialize_with_seed'], timeout=900, min_covers=0),
